@@ -611,7 +611,9 @@ func (g *Gen) runPass() {
 			}
 			env := g.envAt(st, st, g.prog.typesPkg(gi.Pkg), nil)
 			t := env.compileBool(gi.Clause.Expr)
-			g.reportSpecErrors(env, gi.Clause)
+			if g.reportSpecErrors(env, gi.Clause) {
+				continue
+			}
 			g.assume(t.S)
 		}
 	}
@@ -621,7 +623,9 @@ func (g *Gen) runPass() {
 		for _, c := range g.ct.Requires {
 			env := g.envAt(st, st, g.pkg, g.paramEnv)
 			t := env.compileBool(c.Expr)
-			g.reportSpecErrors(env, c)
+			if g.reportSpecErrors(env, c) {
+				continue
+			}
 			g.assume(t.S)
 			reqs = append(reqs, t.S)
 		}
@@ -672,11 +676,33 @@ func (p *Program) typesPkg(path string) *types.Package {
 	return nil
 }
 
-func (g *Gen) reportSpecErrors(env *Env, c Clause) {
+// reportSpecErrors records specification errors. A clause whose only problem is an identifier
+// the code no longer has (a renamed / removed local or captured variable) is "stale": it is
+// noted, not an error; as a goal it has been compiled to false (the obligation fails), as an
+// assumption the caller must skip it (the return value says so).
+func (g *Gen) reportSpecErrors(env *Env, c Clause) bool {
+	if len(env.errs) == 0 {
+		return false
+	}
+	stale := true
+	for _, e := range env.errs {
+		if !strings.Contains(e, "unknown identifier") {
+			stale = false
+		}
+	}
+	if stale {
+		g.note("contract clause %q no longer applies to the code (%s)", c.Text, env.errs[0])
+		if !g.dry {
+			g.staleInv = append(g.staleInv, c.Text+"  ["+env.errs[0]+"]")
+		}
+		env.errs = nil
+		return true
+	}
 	for _, e := range env.errs {
 		g.errorf("%s: %s (in %q)", c.Where, e, c.Text)
 	}
 	env.errs = nil
+	return false
 }
 
 func (g *Gen) envAt(st, old State, pkg *types.Package, vars map[string]T) *Env {
@@ -944,7 +970,9 @@ func (g *Gen) enterLoop(h *ssa.BasicBlock, li *loopInfo, st State, fwd []predEdg
 			if g.invariantStale(env, c) {
 				continue
 			}
-			g.reportSpecErrors(env, c)
+			if g.reportSpecErrors(env, c) {
+				continue
+			}
 			g.assume(app("=>", reach, t.S))
 		}
 	}
